@@ -245,7 +245,8 @@ func (r *runner) runPlan(v *variant, prop string, seed int64, index int, tier st
 		}
 	}
 	// isolation oracle
-	if oc.Plan != nil && oc.Plan.Mode == "sessions" {
+	if oc.Plan != nil && oc.Plan.Mode == "sessions" && prop != "C06" && oc.Plan.Prop != "C06" {
+		// (C06's oracle is "the call returns", not what it returns)
 		r.isolation(v, oc)
 	}
 	if oc.Plan != nil && oc.Plan.Mode == "typesweep" {
